@@ -8,10 +8,11 @@ From XSM Require Import Model.Macro Proofs.TreeP Proofs.GuardP Proofs.StepP Proo
      Proofs.PreserveP Proofs.SelectP Proofs.FaultP Proofs.ExecP Proofs.FrameP Proofs.TreeEntryP Proofs.HistoryP Proofs.InvariantP.
 From Coq Require Import Lia.
 
-(* every transition targets a state other than the root; a targeted history pseudo-state is statically sane *)
+(* every transition targets a state of the machine (ANY state: the root restarts the machine); a targeted history
+   pseudo-state is statically sane *)
 Definition target_okh (m : machine) (t : trans) : Prop :=
   match t_target t with
-  | TState g => g < size m /\ g <> 0 /\ (is_history m g = true -> hist_static_ok m g)
+  | TState g => g < size m /\ (is_history m g = true -> hist_static_ok m g)
   | _ => True
   end.
 Definition safe_targets_h (m : machine) : Prop := forall s t, s < size m -> In t (node_trans (nd m s)) -> target_okh m t.
@@ -27,7 +28,7 @@ Definition hist_static_okb (m : machine) (h : nat) : bool :=
      end.
 Definition target_okhb (m : machine) (t : trans) : bool :=
   match t_target t with
-  | TState g => Nat.ltb g (size m) && negb (Nat.eqb g 0) && (negb (is_history m g) || hist_static_okb m g)
+  | TState g => Nat.ltb g (size m) && (negb (is_history m g) || hist_static_okb m g)
   | _ => true
   end.
 Definition safe_targets_hb (m : machine) : bool :=
@@ -46,8 +47,8 @@ Proof.
   unfold safe_targets_hb. rewrite forallb_forall. intros H s t Hs Ht.
   assert (Hin : In s (seq 0 (size m))) by (apply in_seq; lia). specialize (H s Hin). rewrite forallb_forall in H. specialize (H t Ht).
   unfold target_okhb in H. unfold target_okh. destruct (t_target t) as [|g|]; try exact I.
-  apply andb_prop in H as [H H3]. apply andb_prop in H as [H1 H2].
-  split; [now apply Nat.ltb_lt|]. split; [apply negb_true_iff in H2; now apply Nat.eqb_neq|].
+  apply andb_prop in H as [H1 H3].
+  split; [now apply Nat.ltb_lt|].
   intros Hh. rewrite Hh in H3. simpl in H3. now apply hist_static_okb_ok.
 Qed.
 
@@ -55,7 +56,7 @@ Qed.
 Lemma safe_targets_weaken m : safe_targets m -> safe_targets_h m.
 Proof.
   intros H s t Hs Ht. specialize (H s t Hs Ht). unfold target_ok in H. unfold target_okh. destruct (t_target t) as [|g|]; try exact I.
-  destruct H as [H1 [H2 H3]]. split; [exact H1|]. split; [exact H2|]. intros Hh. congruence.
+  destruct H as [H1 [H2 H3]]. split; [exact H1|]. intros Hh. congruence.
 Qed.
 
 Section InvariantH.
@@ -81,11 +82,12 @@ Section InvariantH.
       apply (inv_same s); [|exact HI]. eapply same_cfg_trans; [exact Ha | apply logo_same]. }
     unfold target_okh in Hok. destruct (t_target t) as [|tgt|]; [exact Hint | | exact HI].
     destruct (Nat.eqb tgt (t_src t) && negb (t_reenter t)); [exact Hint|].
-    destruct Hok as [Ht [Hne Hst]]. destruct HI as [HL HH].
+    destruct Hok as [Ht Hst]. destruct HI as [HL HH].
     split; [|now apply external_keeps_histok].
     destruct (exec_external eng pr m t tgt ev s) as [s1 [e|]] eqn:E; simpl.
     - rewrite (abort_restores_configuration eng pr m t tgt ev s s1 e E). exact HL.
-    - destruct (is_history m tgt) eqn:Hh.
+    - destruct (Nat.eq_dec tgt 0) as [->|Hne]; [now apply (root_transition_legal m Hwf Hgood eng pr t ev s s1)|].
+      destruct (is_history m tgt) eqn:Hh.
       + now apply (history_transition_legal m Hwf Hgood eng pr t tgt ev s s1 HL HH Hsrc Ht Hh (Hst eq_refl)).
       + now apply (transition_preserves_legal m Hwf Hgood eng pr t tgt ev s s1).
   Qed.
